@@ -14,6 +14,9 @@
  *        dict  = raw content loaded with ZSTD_CCtx_loadDictionary_advanced(..., ZSTD_dct_rawContent)
  *        -> <hex frame | err <class>> calls=<srcSize>:<cap>:<r0>.<r1>.<r2>:<what was returned: F C Z X R<n> or M = plan entry longer than the buffer>;...
  *   prodgen <id=val,...|-> <hex-src> <plan>      same producer, ZSTD_generateSequences -> off:ll:ml:rep list | err <class>
+ *   mergeseq <off:ll:ml,...|->                   ZSTD_mergeBlockDelimiters on an exact-size heap array -> off:ll:ml list of the entries it returns | -
+ *   genmerge <id=val,...|-> <hex-src>            ZSTD_generateSequences, then ZSTD_mergeBlockDelimiters on an exact-size copy
+ *        -> <extracted off:ll:ml list|-> <merged off:ll:ml list|->  |  err <class>
  */
 #include <stdio.h>
 #include <stdlib.h>
@@ -112,6 +115,28 @@ int main(void) {
                 free(out);
             }
             free(st->entries); st->entries = NULL; free(in); free(d);
+        } else if (!strcmp(op, "mergeseq")) {
+            char* sq = strtok(NULL, " "); size_t ns = 0, cap = 16, i, k; ZSTD_Sequence* sv = (ZSTD_Sequence*)malloc(cap * sizeof *sv); ZSTD_Sequence* exact; char* t; char* s2 = NULL;
+            if (sq && sq[0] != '-') for (t = strtok_r(sq, ",", &s2); t; t = strtok_r(NULL, ",", &s2)) { unsigned a, b, c;
+                if (sscanf(t, "%u:%u:%u", &a, &b, &c) == 3) { if (ns == cap) { cap *= 2; sv = (ZSTD_Sequence*)realloc(sv, cap * sizeof *sv); } sv[ns].offset = a; sv[ns].litLength = b; sv[ns].matchLength = c; sv[ns].rep = 0; ns++; } }
+            exact = (ZSTD_Sequence*)malloc(ns ? ns * sizeof *sv : 1); memcpy(exact, sv, ns * sizeof *sv); free(sv);      /* exact size: ASan sees an access to entry [n] */
+            k = ZSTD_mergeBlockDelimiters(exact, ns);
+            if (k > ns) printf("err returned-%zu-of-%zu\n", k, ns);
+            else { if (!k) putchar('-'); for (i = 0; i < k; i++) printf("%s%u:%u:%u", i ? "," : "", exact[i].offset, exact[i].litLength, exact[i].matchLength); putchar('\n'); }
+            free(exact);
+        } else if (!strcmp(op, "genmerge")) {
+            char* ps = strtok(NULL, " "); size_t n; unsigned char* in = zv_unhex(strtok(NULL, " "), &n); size_t r, k, i;
+            size_t cap = ZSTD_sequenceBound(n) + 16; ZSTD_Sequence* sv = (ZSTD_Sequence*)calloc(cap, sizeof *sv);
+            ZSTD_CCtx_reset(cctx, ZSTD_reset_session_and_parameters);
+            r = zv_apply(cctx, ps);
+            k = ZSTD_isError(r) ? r : ZSTD_generateSequences(cctx, sv, cap, in, n);
+            if (ZSTD_isError(k)) printf("err %s\n", zv_errclass(k));
+            else { ZSTD_Sequence* exact = (ZSTD_Sequence*)malloc(k ? k * sizeof *sv : 1); size_t m; memcpy(exact, sv, k * sizeof *sv);
+                if (!k) putchar('-'); for (i = 0; i < k; i++) printf("%s%u:%u:%u", i ? "," : "", sv[i].offset, sv[i].litLength, sv[i].matchLength);
+                m = ZSTD_mergeBlockDelimiters(exact, k);
+                putchar(' '); if (!m || m > k) putchar('-'); for (i = 0; i < m && m <= k; i++) printf("%s%u:%u:%u", i ? "," : "", exact[i].offset, exact[i].litLength, exact[i].matchLength);
+                putchar('\n'); free(exact); }
+            free(sv); free(in);
         } else printf("bad-op\n");
         fflush(stdout);
     }
